@@ -19,6 +19,7 @@ package scalarDistribution
 /* -------------------------------------------------------------------------- */
 
 import   "fmt"
+import   "math"
 
 import . "github.com/pbenner/autodiff"
 import . "github.com/pbenner/autodiff/statistics"
@@ -40,7 +41,7 @@ func NewCategoricalDistribution(theta_ Vector) (*CategoricalDistribution, error)
   theta := NullDenseVector(t, theta_.Dim())
 
   for i := 0; i < theta.Dim(); i++ {
-    if theta_.At(i).GetFloat64() < 0 {
+    if v := theta_.At(i).GetFloat64(); v < 0 || math.IsNaN(v) {
       return nil, fmt.Errorf("invalid negative probability")
     }
     theta.At(i).Log(theta_.At(i))
